@@ -30,7 +30,6 @@ def handle : Handler := fun op args =>
       pure (replyPy val1 (tmUnconvert r v))
   | "dt.regex", [s] => (decStr s).map fun s => replyGroups (dtRegex s)
   | "tm.regex", [s] => (decStr s).map fun s => replyGroups (tmRegex s)
-  | "dt.ndzeros", [] => some (replyOk [.list (ndZeros.map encNat)])
   | "dt.gmtoffset", [h, m] => do
       let h ← decInt h; let m ← decNat m
       pure (replyPy (fun x => [encInt x]) (gmtOffset h m))
